@@ -22,7 +22,8 @@ def transform_state(st, F):
     items = []
     for k, v in st[2]:
         if k == 'points' and v[0] == 'array':
-            items.append((k, ('array', v[1], v[2], np.array(F(v[3]), dtype=object))))
+            moved = np.array(F(v[3]), dtype=object)
+            items.append((k, ('array', moved.shape, v[2], moved)))
         elif k == '_landmarks' and v[0] == 'object':
             sub = []
             for kk, vv in v[2]:
@@ -92,6 +93,49 @@ def apply_to_shape(ctx, cls, d, landmarks, nested):
     # batching does not change anything either
     r2 = t.apply(s, batch_size=2)
     compare_states(ctx, 'result-batched', state_of(r2), transform_state(before, F))
+
+
+def _with_dims_cfgs(tier):
+    out = []
+    for cls in B.SHAPE_CLASSES:
+        for d, dims in ((2, [1, 0]), (2, [0]), (3, [0, 1]), (3, [2, 0]), (3, [1])):
+            for lms in (1, 2):
+                if lms == 2 and dims in ([0], [1]):
+                    continue
+                out.append(dict(cls=cls, d=d, dims=dims, landmarks=lms))
+    return out
+
+
+@contract('C02', 'with_dims_wrapper', configs=_with_dims_cfgs, functions=[
+    'menpo.shape.pointcloud:PointCloud.with_dims',
+    'menpo.transform:WithDims._apply',
+    'menpo.transform.base:Transform.apply',
+    'menpo.transform.base:Transformable._transform',
+    'menpo.shape.base:Shape._transform_inplace',
+    'menpo.landmark.base:LandmarkManager._transform_inplace',
+])
+def with_dims_wrapper(ctx, cls, d, dims, landmarks):
+    """the dimension-slicing transform through its convenience entry point
+    ``shape.with_dims(dims)``: same contract as applying ``WithDims(dims)`` -
+    points and every landmark group sliced alike, everything else carried
+    over, the receiver untouched."""
+    T, S = B.menpo_mods()
+    start = B.SHAPE_CLASSES.index(cls)
+    lm_classes = B.SHAPE_CLASSES[start + 1:] + B.SHAPE_CLASSES[:start + 1]
+    s = B.shape(ctx, cls, d, 's', landmarks=landmarks, lm_classes=lm_classes)
+    g = B.shape(ctx, 'PointCloud', d, 'outer', n=3)
+    g.landmarks['inner'] = B.shape(ctx, 'PointCloud', d, 'inner', n=2)
+    s.landmarks['nested'] = g
+    F = lambda pts: np.asarray(pts)[:, dims]
+    before = state_of(s)
+    r = s.with_dims(dims)
+    ctx.check_true('new-object', r is not s)
+    ctx.check_true('same-class', type(r) is type(s))
+    compare_states(ctx, 'result', state_of(r), transform_state(before, F))
+    compare_states(ctx, 'input-unchanged', state_of(s), before)
+    compare_states(ctx, 'same-as-transform', state_of(r), state_of(T.WithDims(dims).apply(s)))
+    shared = shared_storage(r, s)
+    ctx.check_true('result-shares-no-mutable-storage-with-input', not shared, 'shared: %s' % (shared[:3],))
 
 
 # --------------------------------------------------- callee contract per class
